@@ -2,6 +2,7 @@ package harness
 
 import (
 	"math"
+	"strconv"
 	"unicode/utf8"
 
 	"pgregory.net/rapid"
@@ -130,6 +131,16 @@ var syntaxLookalikes = []string{
 
 // GenString draws a valid-UTF-8 string from the class tables.
 func GenString(t *rapid.T, maxLen int) string {
+	if maxLen >= 4 && oneIn(t, 50, "longstr") {
+		// a long string (buffer and block-size thresholds): 65-300 runes from a few classes
+		n := []int{65, 100, 128, 129, 255, 256, 257, 300}[drawIdx(t, 8, "longn")]
+		buf := make([]byte, 0, n*2)
+		for i := 0; i < n; i++ {
+			class := []int{rcASCII, rcASCII, rcASCII, rcJSONSpecial, rcBMP, rcAstral, rcC0}[drawIdx(t, 7, "lrc")]
+			buf = utf8.AppendRune(buf, drawRuneOfClass(t, class))
+		}
+		return string(buf)
+	}
 	switch pick(t, "strshape", 6, 60, 8, 6) {
 	case 0:
 		return ""
@@ -404,6 +415,24 @@ func genKey(t *rapid.T, cfg TreeCfg) string {
 
 // GenObjectV draws an object node with unique keys.
 func GenObjectV(t *rapid.T, cfg TreeCfg, depth int) V {
+	if cfg.LongLists && oneIn(t, 60, "wideobject") {
+		// a wide object of cheap scalars (size thresholds in map handling, comparison, copying)
+		n := []int{60, 64, 65, 100, 128, 129}[drawIdx(t, 6, "widen")]
+		out := V{K: KObject, O: make([]Pair, 0, n)}
+		for i := 0; i < n; i++ {
+			var v V
+			switch drawInt(t, 0, 2, "wk") {
+			case 0:
+				v = VInt(drawInt(t, -3, 3, "wi"))
+			case 1:
+				v = VStr(smallStrings[drawIdx(t, len(smallStrings), "ws")])
+			default:
+				v = VNil()
+			}
+			out.O = append(out.O, Pair{"key" + strconv.Itoa(i), v})
+		}
+		return out
+	}
 	n := widthFor(t, cfg)
 	out := V{K: KObject, O: make([]Pair, 0, n)}
 	seen := map[string]bool{}
